@@ -242,7 +242,7 @@ impl<F: Float> GaussianMixtureModel<F> {
     fn new<D: Data<Elem = F>, R: Rng + Clone, T>(
         hyperparameters: &GmmValidParams<F, R>,
         dataset: &DatasetBase<ArrayBase<D, Ix2>, T>,
-        mut rng: R,
+        rng: &mut R,
     ) -> Result<GaussianMixtureModel<F>, GmmError> {
         let observations = dataset.records().view();
         let n_samples = observations.nrows();
@@ -252,7 +252,11 @@ impl<F: Float> GaussianMixtureModel<F> {
         // Responsabilities can be initialized either from a KMeans result or randomly.
         let resp = match hyperparameters.init_method() {
             GmmInitMethod::KMeans => {
-                let model = KMeans::params_with_rng(hyperparameters.n_clusters(), rng)
+                // k-means works on its own copy of the generator: move ours on, so that another
+                // initialisation from the same generator starts differently
+                let kmeans_rng = rng.clone();
+                let _: u64 = rng.gen();
+                let model = KMeans::params_with_rng(hyperparameters.n_clusters(), kmeans_rng)
                     .check()
                     .unwrap()
                     .fit(dataset)?;
@@ -266,7 +270,7 @@ impl<F: Float> GaussianMixtureModel<F> {
                 let mut resp = Array2::<f64>::random_using(
                     (n_samples, hyperparameters.n_clusters()),
                     Uniform::new(0., 1.),
-                    &mut rng,
+                    rng,
                 );
                 let totals = &resp.sum_axis(Axis(1)).insert_axis(Axis(0));
                 resp = (resp.reversed_axes() / totals).reversed_axes();
@@ -538,9 +542,7 @@ impl<F: Float, R: Rng + Clone, D: Data<Elem = F>, T> Fit<ArrayBase<D, Ix2>, T, G
 
     fn fit(&self, dataset: &DatasetBase<ArrayBase<D, Ix2>, T>) -> Result<Self::Object, GmmError> {
         let observations = dataset.records().view();
-        let mut gmm = GaussianMixtureModel::<F>::new(self, dataset, self.rng())?;
-        #[cfg(linfa_verif)]
-        verif::init(&gmm.weights, &gmm.means);
+        let mut rng = self.rng();
 
         let mut max_lower_bound = -F::infinity();
         let mut best_params = None;
@@ -555,6 +557,10 @@ impl<F: Float, R: Rng + Clone, D: Data<Elem = F>, T> Fit<ArrayBase<D, Ix2>, T, G
             {
                 verif_run += 1;
             }
+            // Every run starts from its own initialisation (`n_runs` is the number of initialisations)
+            let mut gmm = GaussianMixtureModel::<F>::new(self, dataset, &mut rng)?;
+            #[cfg(linfa_verif)]
+            verif::init(&gmm.weights, &gmm.means);
             let mut lower_bound = -F::infinity();
 
             let mut converged_iter: Option<u64> = None;
